@@ -125,7 +125,8 @@ type Exec struct {
 	opaqueOK bool
 	nowTick  int
 	lastNow  *Term
-	vfs      map[string]vfsFile // in-memory file system (intrinsics_vfs.go)
+	vfs      map[string]*vfsFile // in-memory file system (intrinsics_vfs.go)
+	vfsH     map[*Object]*vfsHandle
 	vfsErr   Value
 	strCache map[string]*Object
 	goq      []func()
